@@ -260,6 +260,9 @@ impl<V: Val> Pma<V> {
     pub fn iter<'a>(&'a self, method: &str, entry: &str, hay: &'a Rc<Vec<u8>>) -> StepIter<'a, V> {
         let pulled = Rc::new(Cell::new(0usize));
         let from_iter = entry == "iter";
+        if entry == "owned" {
+            return StepIter { it: self.iter_owned(method, hay), pulled: None, probes: 0, hops: 0 };
+        }
         let it: Box<dyn Iterator<Item = Match<V>> + 'a> = match self {
             Pma::B(p) => {
                 let h: &'a [u8] = hay.as_slice();
@@ -308,6 +311,36 @@ impl<V: Val> Pma<V> {
             pulled: if from_iter { Some(pulled) } else { None },
             probes: 0,
             hops: 0,
+        }
+    }
+
+    /// The haystack is handed over BY VALUE in an owning container (`[u8; N]` stored inline for the
+    /// lengths 4/8/16/32, `Vec<u8>` otherwise; `String` for the char-wise automaton), and the
+    /// iterator is then moved to the heap: any pointer into the moved-from value would dangle.
+    fn iter_owned<'a>(&'a self, method: &str, hay: &Rc<Vec<u8>>) -> Box<dyn Iterator<Item = Match<V>> + 'a> {
+        macro_rules! by_value {
+            ($p:expr, $h:expr) => {
+                match method {
+                    "ov" => Box::new($p.find_overlapping_iter($h)) as Box<dyn Iterator<Item = Match<V>> + 'a>,
+                    "find" => Box::new($p.find_iter($h)),
+                    "nosuf" => Box::new($p.find_overlapping_no_suffix_iter($h)),
+                    "lm" => Box::new($p.leftmost_find_iter($h)),
+                    _ => panic!("bad method"),
+                }
+            };
+        }
+        match self {
+            Pma::B(p) => match hay.len() {
+                4 => by_value!(p, <[u8; 4]>::try_from(hay.as_slice()).unwrap()),
+                8 => by_value!(p, <[u8; 8]>::try_from(hay.as_slice()).unwrap()),
+                16 => by_value!(p, <[u8; 16]>::try_from(hay.as_slice()).unwrap()),
+                32 => by_value!(p, <[u8; 32]>::try_from(hay.as_slice()).unwrap()),
+                _ => by_value!(p, hay.as_ref().clone()),
+            },
+            Pma::C(p) => {
+                let s = String::from_utf8(hay.as_ref().clone()).expect("harness: valid UTF-8");
+                by_value!(p, s)
+            }
         }
     }
 
